@@ -3,6 +3,8 @@
 set -e
 cd "$(dirname "$0")"
 for f in spec/*.tla; do
+  # (proof modules extend TLAPS.tla, which is on tlapm's library path, not on SANY's: they are checked by tlapm in the C01 / C05 checks)
+  case "$f" in *Proof.tla) continue;; esac
   ( cd spec && tla-sany "$(basename "$f")" >/tmp/sany.$$ 2>&1 ) || { cat /tmp/sany.$$; rm -f /tmp/sany.$$; echo "SANY failed on $f"; exit 1; }
 done
 rm -f /tmp/sany.$$
